@@ -175,6 +175,11 @@ unsafe fn map_fixed_anon(addr: u64, len: usize, prot: c_int) {
 }
 
 impl Native {
+    /// Placeholder without arenas or signal handlers, for emulator-only use (C19, fuzz targets).
+    pub fn none() -> Native {
+        Native { arenas: vec![], host_maps: vec![] }
+    }
+
     /// Must be called once per (single-threaded) worker process.
     pub unsafe fn new() -> Native {
         // alternate signal stack + handlers
